@@ -184,34 +184,34 @@ func handleCCR() diam.HandlerFunc {
 				usedQuota := int64(mscc.UsedServiceUnit.CCTotalOctets)
 				quota -= usedQuota
 			}
+		}
 
-			// Convert quota into value digits and exponential expression
-			quotaStr = strconv.FormatInt(quota, 10)
-			quotaInt, err1 := strconv.ParseInt(quotaStr, 10, 64)
-			if err1 != nil {
-				logger.AcctLog.Errorf("srtconv ParseInt error: %+v", err1)
-				return
-			}
+		// Convert quota into value digits and exponential expression
+		quotaStr = strconv.FormatInt(quota, 10)
+		quotaInt, err1 := strconv.ParseInt(quotaStr, 10, 64)
+		if err1 != nil {
+			logger.AcctLog.Errorf("srtconv ParseInt error: %+v", err1)
+			return
+		}
 
-			quotaLen := len(quotaStr)
-			quotaExp := quotaLen - 1
-			quotaVal := quotaInt / int64(math.Pow10(quotaExp))
+		quotaLen := len(quotaStr)
+		quotaExp := quotaLen - 1
+		quotaVal := quotaInt / int64(math.Pow10(quotaExp))
 
-			cca = charging_datatype.AccountDebitResponse{
-				SessionId:       ccr.SessionId,
-				OriginHost:      ccr.DestinationHost,
-				OriginRealm:     ccr.DestinationRealm,
-				CcRequestType:   ccr.CcRequestType,
-				CcRequestNumber: ccr.CcRequestNumber,
-				EventTimestamp:  datatype.Time(time.Now()),
-				RemainingBalance: &charging_datatype.RemainingBalance{
-					UnitValue: &charging_datatype.UnitValue{
-						ValueDigits: datatype.Integer64(quotaVal),
-						Exponent:    datatype.Integer32(quotaExp),
-					},
+		cca = charging_datatype.AccountDebitResponse{
+			SessionId:       ccr.SessionId,
+			OriginHost:      ccr.DestinationHost,
+			OriginRealm:     ccr.DestinationRealm,
+			CcRequestType:   ccr.CcRequestType,
+			CcRequestNumber: ccr.CcRequestNumber,
+			EventTimestamp:  datatype.Time(time.Now()),
+			RemainingBalance: &charging_datatype.RemainingBalance{
+				UnitValue: &charging_datatype.UnitValue{
+					ValueDigits: datatype.Integer64(quotaVal),
+					Exponent:    datatype.Integer32(quotaExp),
 				},
-				MultipleServicesCreditControl: creditControl,
-			}
+			},
+			MultipleServicesCreditControl: creditControl,
 		}
 
 		logger.AcctLog.Infof("UE [%s], Rating group [%d], quota [%d]", subscriberId, rg, quota)
